@@ -136,9 +136,29 @@ impl Prop for Interpolation {
             Family::Bundled(_) => 3,
             Family::Generated(v) => v[0].streams.len(),
         };
-        let w_duration = gen_weights(t, n);
-        let w_parameter = (0..nstreams).map(|_| gen_weights(t, n)).collect();
-        let w_gv = (0..nstreams).map(|_| gen_weights(t, n)).collect();
+        let mut w_duration = gen_weights(t, n);
+        let mut w_parameter: Vec<Vec<f64>> = (0..nstreams).map(|_| gen_weights(t, n)).collect();
+        let mut w_gv: Vec<Vec<f64>> = (0..nstreams).map(|_| gen_weights(t, n)).collect();
+        // structured boundary: every quantity on the same vertex except one or two
+        if n >= 2 && t.chance(0.25) {
+            let k = t.below(n);
+            let vertex: Vec<f64> = (0..n).map(|i| if i == k { 1.0 } else { 0.0 }).collect();
+            let keep: Vec<usize> = (0..t.urange(1, 2)).map(|_| t.below(1 + 2 * nstreams)).collect();
+            let mut slot = 0;
+            let mut set = |w: &mut Vec<f64>| {
+                if !keep.contains(&slot) {
+                    *w = vertex.clone();
+                }
+                slot += 1;
+            };
+            set(&mut w_duration);
+            for w in w_parameter.iter_mut() {
+                set(w);
+            }
+            for w in w_gv.iter_mut() {
+                set(w);
+            }
+        }
         Case { family, source: src.name().into(), labels, w_duration, w_parameter, w_gv, identical }
     }
     fn check(&self, c: &Case) -> Result<Report, Failure> {
